@@ -93,6 +93,12 @@ def verify_functions(R, names, engine_opts=None, mod=None, tag=None):
             R.out_of_reach.append((n, str(e)))
             R.log('OUT OF REACH', n, e)
             continue
+        except (z3.Z3Exception, AttributeError, TypeError, KeyError, IndexError) as e:
+            if tag is None or (isinstance(e, KeyError) and 'function not found in IR' in str(e)):
+                raise
+            # cross-target pass: a contract or an environment model that fixes the host's pointer / int width does not apply
+            R.out_of_reach.append((n, 'contract or model written for the host data model: %s' % str(e)[:90]))
+            continue
         except symex.Undecided as e:
             R.undecided.append((n, str(e)))
             R.log('UNDECIDED', n, e)
